@@ -324,7 +324,7 @@ class Ref:
         missing = [a for a in args if a not in env]
         if missing:
             raise Outcome(("typeerror", tuple(missing)))
-        if d.get("flavor") in ("corofunc", "ret_coro") and not self.cur_async:
+        if d.get("flavor") in ("corofunc", "ret_coro", "gated") and not self.cur_async:
             # C13: a coroutine condition on a sync callable is rejected, never taken as truthy
             raise Outcome(("valueerror",))
         if reeval:
@@ -375,7 +375,7 @@ class Ref:
                 old = {}
                 for s in eff["snaps"]:
                     missing = [a for a in s.get("args", []) if a not in env]
-                    if s.get("flavor") in ("corofunc", "ret_coro") and not self.cur_async:
+                    if s.get("flavor") in ("corofunc", "ret_coro", "gated") and not self.cur_async:
                         raise Outcome(("valueerror",))
                     if missing:
                         raise Outcome(("typeerror", tuple(missing)))
